@@ -129,8 +129,12 @@ ItemDrift(op, m, o) ==
 
 ReqDrift(pre, req, res, post) ==
     LET m == RunRequest(pre, req)
-        unmodelled == \E k \in DOMAIN m.items : m.items[k].status = "Unmodelled" IN
-    IF unmodelled THEN {}
+        unmodelled == \E k \in DOMAIN m.items : m.items[k].status = "Unmodelled"
+        \* the backend refused where the model leaves the outcome to the backend (bad padding, unusable key ...): the batch
+        \* stopped there in reality and went on in the model - nothing to compare beyond that item
+        backendStop == /\ m.kind = "resp" /\ res.kind = "resp" /\ Len(res.items) >= 1 /\ Len(res.items) <= Len(m.items)
+                       /\ m.items[Len(res.items)].any /\ res.items[Len(res.items)].status # "Success" IN
+    IF unmodelled \/ backendStop THEN {}
     ELSE (IF m.kind = res.kind THEN {} ELSE {"kind"})
          \cup (IF m.kind = "raised" /\ res.kind = "raised" /\ (m.reason # res.reason \/ m.mc # res.mc) THEN {"raise"} ELSE {})
          \cup (IF m.kind = "resp" /\ res.kind = "resp"
